@@ -168,6 +168,55 @@ func ZZ_C11_alias() {
 				zzSameSnap(zzSnapMsg(p), snaps[i], "history")
 			}
 		}
+	case 12: // the slice returned by an ITEM's ToBytes(), for items of 0, 1 and 2 values of every format
+		mk := func(kind, n int) ast.ItemNode {
+			vals := make([]interface{}, n)
+			for i := range vals {
+				switch kind {
+				case 1, 2:
+					vals[i] = int(1 + i)
+				case 3:
+					vals[i] = i == 0
+				case 4, 5:
+					vals[i] = float64(i) + 0.5
+				default:
+					vals[i] = 3 + i
+				}
+			}
+			switch kind {
+			case 0:
+				return ast.NewListNode(vals...)
+			case 1:
+				return ast.NewBinaryNode(vals...)
+			case 2:
+				return ast.NewASCIINode("xy"[:n])
+			case 3:
+				return ast.NewBooleanNode(vals...)
+			case 4:
+				return ast.NewFloatNode(4, vals...)
+			case 5:
+				return ast.NewFloatNode(8, vals...)
+			case 6, 7, 8, 9:
+				return ast.NewIntNode(1<<uint(kind-6), vals...)
+			}
+			return ast.NewUintNode(1<<uint(kind-10), vals...)
+		}
+		kind, n := rt.Param("kind"), rt.Param("n")
+		if kind == 0 {
+			n = 0 // list elements are items
+		}
+		it := mk(kind, n)
+		s0 := zzSnapItem(it)
+		b := it.ToBytes()
+		b[rt.Choice("i", len(b))] ^= x
+		zzSameSnap(zzSnapItem(it), s0, "item-bytes:same-item")
+		zzSameSnap(zzSnapItem(mk(kind, n)), s0, "item-bytes:equal-item-built-afterwards")
+		holder := ast.NewListNode(mk(kind, n), it)
+		hb := holder.ToBytes()
+		rt.Assert(rt.BytesEq(hb[2:2+len(s0.bytes)], s0.bytes), "item-bytes:inside-a-list")
+		rt.Assert(rt.BytesEq(hb[2+len(s0.bytes):], s0.bytes), "item-bytes:inside-a-list")
+		hb[rt.Choice("j", len(hb))] ^= x
+		zzSameSnap(zzSnapItem(it), s0, "list-bytes:element-unchanged")
 	case 9: // control messages: header argument, ToBytes result, decoder input
 		hdr := rt.Bytes("hdr", 10)
 		cm := ast.NewHSMSControlMessage(hdr)
